@@ -48,7 +48,7 @@ def step_ok(want, got):
 
 
 def script_of(line):
-    return line.split(" ", 2)[2].split(";") if line.startswith("pkt ") else []
+    return line.split(" ")[2].split(";") if line.startswith("pkt ") else []
 
 
 def relevant(step, focus):
@@ -57,7 +57,8 @@ def relevant(step, focus):
 
 
 def failing_positions(spec, out, steps, focus):
-    """positions where `out` violates the best alternative (the one with the fewest violations); None = shape mismatch"""
+    """positions where `out` violates the best alternative (the one `out` follows longest, then the one with the fewest
+    violations); None = shape mismatch"""
     alts, hints = parse_psteps(spec)
     got = out.split(";")
     best = None
@@ -65,8 +66,9 @@ def failing_positions(spec, out, steps, focus):
         if len(a) != len(got):
             continue
         bad = [i for i, (w, g) in enumerate(zip(a, got)) if relevant(steps[i], focus) and not step_ok(w, g)]
-        if best is None or len(bad) < len(best[0]):
-            best = (bad, a)
+        rank = (-(bad[0] if bad else len(got) + 1), len(bad))
+        if best is None or rank < best[2]:
+            best = (bad, a, rank)
     if best is None:
         return None, None, hints
     return best[0], best[1], hints
@@ -113,7 +115,12 @@ def _hint_chain(h):
     return out
 
 
-def explain_write(exp, act, chain, sets=()):
+def line_fixes(line):
+    t = line.split(" ")
+    return set(t[-1][3:].split(",")) if t[-1].startswith("fx=") else set()
+
+
+def explain_write(exp, act, chain, sets=(), fixes=frozenset()):
     """Explain the serialised bytes `act` from the expected bytes `exp` by the known serialisation defects of the cached
     layers in `chain`: replay how each layer writes itself (its fixed-size header, then the cached inner object or the raw
     bytes after its payload offset) and allow the bytes a defective setter is known not to write back properly.
@@ -130,22 +137,25 @@ def explain_write(exp, act, chain, sets=()):
     setk = {(k, p) for k, p in sets}
     for i, (kind, attrs, start) in enumerate(chain[1:], 1):
         if kind == "err":
-            if start < len(frame):
+            if "errser" in fixes:
+                out += frame[start:]
+            elif start < len(frame):
                 atoms.add("W:error-object-swallows-rest")
             break
         if kind not in size:
             return None
-        if kind == "tcp" and setk & {("tcp", "dataoff"), ("tcp", "len"), ("tcp", "flags")}:
-            loose[len(out) + 12] = "W:tcp-dataoff-and-flags-share-one-word"
-        if kind == "ipv6" and ("ipv6", "flowlabel") in setk:
-            loose[len(out) + 1] = "W:ipv6-flowlabel-spills-into-trafficclass"
-        out += frame[start:start + size[kind]]
-        if kind == "tcp":
-            atoms.add("W:tcp-urgent-dropped")
         pay = attrs.get("off", start + size[kind])
-        if kind == "ipv4" and pay - start > 20:
+        whole = (kind == "tcp" and "tcp" in fixes) or (kind == "ipv4" and "ipv4opt" in fixes)   # header and options written
+        if kind == "tcp" and "tcp" not in fixes and setk & {("tcp", "dataoff"), ("tcp", "len"), ("tcp", "flags")}:
+            loose[len(out) + 12] = "W:tcp-dataoff-and-flags-share-one-word"
+        if kind == "ipv6" and "flow20" not in fixes and ("ipv6", "flowlabel") in setk:
+            loose[len(out) + 1] = "W:ipv6-flowlabel-spills-into-trafficclass"
+        out += frame[start:pay] if whole else frame[start:start + size[kind]]
+        if kind == "tcp" and not whole:
+            atoms.add("W:tcp-urgent-dropped")
+        if kind == "ipv4" and not whole and pay - start > 20:
             atoms.add("W:ipv4-options-dropped")
-        if kind == "ipv4" and pay - start < 20:
+        if kind == "ipv4" and not whole and pay - start < 20:
             atoms.add("W:ipv4-ihl-below-5-bytes-repeated")
         last = i == len(chain) - 1
         if last or kind in ("tcp", "udp"):
@@ -224,7 +234,7 @@ def _addr_atom(kind, text, verdict, out):
         if kind == "v6" and text == "":
             return "addr:v6:empty-text-read-as-all-zero"
         if kind == "v6" and "::" not in text and (text.startswith(":") or text.endswith(":")):
-            return "addr:v6:single-stray-colon-read-as-zero-group"
+            return "addr:v6:lone-colon-at-an-end-read-as-compression"
         return f"addr:{kind}:malformed-accepted"
     if verdict == "addr-std":
         return f"addr:{kind}:wrong-value"
@@ -270,7 +280,7 @@ def atoms_of(line, spec, out, focus):
                 continue
             ex = None
             if want.startswith("ok ") and g.startswith("ok "):
-                ex = explain_write(want[3:], g[3:], chain, sets)
+                ex = explain_write(want[3:], g[3:], chain, sets, line_fixes(line))
             if st == "R":
                 reparse_broken = True
             atoms.extend(sorted(ex) if ex else ["W:unexplained"])
@@ -305,6 +315,8 @@ def atoms_of(line, spec, out, focus):
             k, p = sets[-1]
             val = st.split("=", 1)[1]
             a = None
+            if g.startswith("rterr") and "vlan" in path and path[path.index("vlan") + 1: path.index("vlan") + 2] == ["ipv6"]:
+                a = "read:vlan.ipv6:no-such-property"
             if (k, p) in ADDR_KIND and val.startswith("s:"):
                 text = bytes.fromhex(val[2:]).decode("utf-8", "replace")
                 if want == "!rterr" and g.startswith("rterr"):
@@ -329,7 +341,7 @@ def atoms_of(line, spec, out, focus):
 
 
 def make_hooks(prop, focus):
-    """spec_override / judge / classify / model_skip for one property"""
+    """spec_override / judge / classify for one property"""
     known_cache = {}
 
     def known():
@@ -352,21 +364,45 @@ def make_hooks(prop, focus):
                 return a
         return atoms[0]
 
-    def model_skip(c):
-        """On a line where the model itself shows only known defects, an implementation whose remaining defects are a
-        subset of the model's is accepted (a tree with some of the proposed fixes applied)."""
-        if c.model == c.impl:
-            return False
-        ma = atoms_of(c.line, spec(c), c.model, "GSW")
-        if not ma or any(a not in known() for a in ma):
-            return False
-        ia = atoms_of(c.line, spec(c), c.impl, "GSW")
-        return set(ia) <= set(ma)
-
-    return spec_override, judge, classify, model_skip
+    return spec_override, judge, classify
 
 
 canon = wire.canon_rterr
+
+# ------------------------------------------------------------------ proposed repairs present in the tree under test
+
+_PROBE_TCP = "001122334455aabbccddeeff08004500002c12344000400600000a0000010a0000021f90005000000001000000025012faf0abcd1234deadbeef"
+_PROBE_OPT = "001122334455aabbccddeeff0800460000200000000040110000" + "0a0000010a000002" + "01020304" + "0035003500080000"
+_PROBE_V6 = "001122334455aabbccddeeff86dd6000000000081140" + "00" * 15 + "01" + "00" * 15 + "02" + "0035003500080000"
+_PROBE_VLAN6 = "001122334455aabbccddeeff8100000186dd6000000000081140" + "00" * 15 + "01" + "00" * 15 + "02" + "0035003500080000"
+PROBES = [
+    ("tcp", f"pkt {_PROBE_TCP} Geth.ipv4.tcp;W", lambda o: o.endswith(_PROBE_TCP)),
+    ("ipv4opt", f"pkt {_PROBE_OPT} Geth.ipv4;W", lambda o: o.endswith(_PROBE_OPT)),
+    ("errser", f"pkt {_PROBE_TCP[:48]} Geth.ipv4;W", lambda o: o.endswith(_PROBE_TCP[:48])),
+    ("typecheck", f"pkt {_PROBE_TCP} Geth.vlan", lambda o: o == "ok n"),
+    ("vlan6", f"pkt {_PROBE_VLAN6} G$3", lambda o: o == "ok O:ipv6"),
+    ("v6text", "addr v6 " + "::1".encode().hex(), lambda o: o.startswith("ok ")),
+    ("flow20", f"pkt {_PROBE_V6} Seth.ipv6.flowlabel=i:2097151;Geth.ipv6.flowlabel", lambda o: o.endswith("ok i:1048575")),
+]
+
+
+def fix_token(ctx):
+    """`` for the unchanged tree (/repo: the model of the code as it is applies); for a scratch worktree the proposed
+    repairs it contains, found by probing the harness built from it, as the token the driver understands"""
+    if ctx.key == "main" or not getattr(ctx, "harness", None):
+        return ""
+    outs = vlib.run_parallel(ctx.harness, [l for _, l, _ in PROBES], timeout=60, shards=1)
+    flags = [name for (name, _, ok), o in zip(PROBES, outs) if ok(o)]
+    ctx.notes.append("proposed repairs detected in the tree under test: " + (",".join(flags) or "none"))
+    return " fx=" + ",".join(flags) if flags else ""
+
+
+def with_fix(ctx, cases):
+    tok = fix_token(ctx)
+    if tok:
+        for c in cases:
+            c.line += tok
+    return cases
 
 # ------------------------------------------------------------------ frames
 
